@@ -46,6 +46,7 @@ fn main() {
             0
         }
         Some("replay") => driver::replay_main(&PathBuf::from(args.get(2).cloned().unwrap_or_default())),
+        Some("explain") => driver::explain_main(&PathBuf::from(args.get(2).cloned().unwrap_or_default())),
         Some("determinism") => {
             let prop = args.get(2).cloned().unwrap_or_default();
             let n = args.get(3).and_then(|s| s.parse().ok()).unwrap_or(2000);
